@@ -87,6 +87,10 @@ def _chained(x, a, b, d):
     return (a + b * x) / d(x)
 
 
+def _ratio(x, a, num, den):
+    return (a + num(x)) / den(x)
+
+
 class Dep:
     """description of a dependence function: kind in {fixed, affine, asym, chained}"""
 
@@ -100,6 +104,8 @@ class Dep:
             return ["a"] + [str(f2b(p)) for p in self.pars]
         if self.kind == "asym":
             return ["y"] + [str(f2b(p)) for p in self.pars]
+        if self.kind == "ratio":
+            return ["r", str(f2b(self.pars[0]))] + self.inner[0].tokens() + self.inner[1].tokens()
         return ["h"] + [str(f2b(p)) for p in self.pars] + self.inner.tokens()
 
     def build(self):
@@ -110,6 +116,9 @@ class Dep:
             df = DependenceFunction(_affine)
         elif self.kind == "asym":
             df = DependenceFunction(_asym)
+        elif self.kind == "ratio":
+            # two different dependence functions as keyword parameters of one dependence function
+            df = DependenceFunction(_ratio, num=self.inner[0].build(), den=self.inner[1].build())
         else:
             df = DependenceFunction(_chained, d=self.inner.build())
         df.parameters = dict(zip(df.parameters.keys(), self.pars))
@@ -125,22 +134,32 @@ class Dep:
             return p[0] + p[1] * g
         if self.kind == "asym":
             return p[0] + p[1] / (1 + p[2] * g)
+        if self.kind == "ratio":
+            return (p[0] + self.inner[0].value(g)) / self.inner[1].value(g)
         return (p[0] + p[1] * g) / self.inner.value(g)
 
     def describe(self):
         d = {"kind": self.kind, "pars": self.pars}
-        if self.inner is not None:
+        if self.kind == "ratio":
+            d["inner"] = [self.inner[0].describe(), self.inner[1].describe()]
+        elif self.inner is not None:
             d["inner"] = self.inner.describe()
         return d
 
 
 def dep_from_desc(d):
+    if d["kind"] == "ratio":
+        return Dep("ratio", d["pars"], [dep_from_desc(d["inner"][0]), dep_from_desc(d["inner"][1])])
     return Dep(d["kind"], d["pars"], dep_from_desc(d["inner"]) if "inner" in d else None)
 
 
 def random_dep(rng, positive=True, allow_fixed=True):
     r = rng.integers(0, 5 if allow_fixed else 4)
     mag = float(10 ** rng.uniform(-0.7, 0.7))
+    if rng.integers(0, 6) == 0:
+        num = Dep("affine", [float(rng.uniform(0.2, 2)), float(rng.uniform(0.0, 0.6))])
+        den = Dep("asym", [float(rng.uniform(0.5, 2)), float(rng.uniform(0.1, 1)), float(rng.uniform(0.1, 1))])
+        return Dep("ratio", [mag], [num, den])
     if r == 4:
         return Dep("fixed", [mag])
     if r == 0:
